@@ -345,9 +345,34 @@ def build_tables(cases):
     return run_harness(reqs)
 
 
+import os as _os, re as _re
+_STATEFUL = _re.compile(r"\b(static\s+mut|thread_local!|lazy_static!|OnceCell|OnceLock|RefCell|Cell<|Mutex|RwLock|Atomic[A-Z]\w*|unsafe)\b")
+
+
+def purity_audit(ctx):
+    """The model of `sample` is a pure function of its arguments; every sample-level correspondence rests on the code being one too. Global
+    state, interior mutability or `unsafe` anywhere in /repo/src (outside comments) is reported once per run as a broken tie."""
+    if getattr(ctx, "_purity_audited", False):
+        return
+    ctx._purity_audited = True
+    hits = []
+    for root, _, files in _os.walk("/repo/src"):
+        for f in files:
+            if f.endswith(".rs"):
+                for i, line in enumerate(open(_os.path.join(root, f), errors="replace"), 1):
+                    m = _STATEFUL.search(line.split("//")[0])
+                    if m:
+                        hits.append(f"{_os.path.join(root, f)}:{i}: {m.group(0)}")
+    ctx.extra["purity_audit_hits"] = hits
+    if hits:
+        ctx.mismatch("source audit: global state / interior mutability / unsafe in /repo/src - the pure model of `sample` no longer describes the code "
+                     "(results may depend on the call history, the thread or the process)", None, hits[:10], None)
+
+
 def generate(ctx, n_graphs, pts, max_e=6, max_loops=3, kinds=("uniform", "uniform", "corner", "edge1"), variant="random",
              routings_per_graph=1, names=None, mass_mode=None, special=(), ext_modes=None, scales=(1,), decouple=0.0, dims=None, plane=None):
     """returns list of dict(case, routing, table, xs, req, kind); `special` = kinds of make_special_case to append"""
+    purity_audit(ctx)
     rng = ctx.rng
     cases = []
     while len(cases) < n_graphs:
